@@ -254,6 +254,16 @@ def stats_rules(run, db):
             if name == 'mean':
                 s = orig_ext('numpy.sum', [Arr(v.shape, v.data)], {}, node)
                 return it.binop(ast.Div(), s, Const(len(v.data)), node)
+            if name == 'std':
+                # the definition, so that `x.std()` and a spelled-out root-mean-square deviation are the same value
+                s = orig_ext('numpy.sum', [Arr(v.shape, v.data)], {}, node)
+                m_ = dom.rat(it.binop(ast.Div(), s, Const(len(v.data)), node))
+                cells = [dom.rat(x) for x in v.data]
+                if m_ is not None and all(c is not None for c in cells):
+                    acc = Rat(R.const(0))
+                    for c in cells:
+                        acc = acc + (c - m_) * (c - m_)
+                    return dom.lift(Rat(R.sqrt(acc / len(cells))))
             return dom.func_atom(name, list(v.data))
         return orig_method(v, name, args, kwargs, node)
 
@@ -278,15 +288,44 @@ def stats_rules(run, db):
         'pv': Rat(R.func('max', xs)) - Rat(R.func('min', xs)),
         'rms': Rat(R.sqrt((xs[0] * xs[0] + xs[1] * xs[1] + xs[2] * xs[2]) / 3)),
         'Sa': sum((Rat(R.func('abs', [x - mean])) for x in xs), Rat(R.const(0))) / 3,
-        'std': Rat(R.func('std', xs)),
+        'std': Rat(R.sqrt(((xs[0] - mean) * (xs[0] - mean) + (xs[1] - mean) * (xs[1] - mean) + (xs[2] - mean) * (xs[2] - mean)) / 3)),
     }
+
+    def same_for_real_samples(got, want):
+        # |e| is e or -e for real samples: a value in which every |e| may be replaced by either and equals `want` both ways is `want`
+        if got == want:
+            return True
+        seen_, todo_ = set(), [got]
+        while todo_:
+            x_ = todo_.pop()
+            x_ = x_ if isinstance(x_, Rat) else Rat(x_)
+            for a in x_.atoms():
+                if a not in seen_:
+                    seen_.add(a)
+                    todo_.extend(R.info.get(a, ('', []))[1] if R.info.get(a) else [])
+        abs_atoms = [a for a in seen_ if R.info.get(a, ('',))[0] == 'abs']
+        if not abs_atoms or len(abs_atoms) > 4:
+            return False
+        import itertools
+        for signs in itertools.product((1, -1), repeat=len(abs_atoms)):
+            sub = {}
+            for a, sg in zip(abs_atoms, signs):
+                e = R.info[a][1][0]
+                e = e if isinstance(e, Rat) else Rat(e)
+                sub[a] = e * sg
+            try:
+                if not (got.subs(sub) == want):
+                    return False
+            except Exception:
+                return False
+        return True
     for name, want in refs.items():
         fi = db.func('prysm.util.' + name)
         del reductions[:]
         res = returns(it.run(fi, kwargs=lambda: {'array': Arr((n,), [dom.sym('a%d' % i) for i in range(n)])}), fi)
         for p_ in res:
             got = dom.rat(p_.value)
-            run.check(got is not None and got == want, 'C12.stats', fi.qual, 'formula', '%s equals its definition on the finite samples (generic 3-sample array)' % name,
+            run.check(got is not None and (got == want or (name in ('std', 'rms') and same_for_real_samples(got, want))), 'C12.stats', fi.qual, 'formula', '%s equals its definition on the finite samples (generic 3-sample array)' % name,
                       '%s = %s, expected %s' % (name, got.key() if got is not None else p_.value, want.key()), fi.loc())
         raw = [r for r in reductions if not r[1]]
         run.check(bool(reductions) and not raw, 'C12.stats', fi.qual, 'finite mask', 'every reduction in %s runs over array[isfinite(array)]' % name,
@@ -654,12 +693,36 @@ def check(run, db, tier):
                'not decided: idempotence of tilt/power removal, rms^2 = std^2 + mean^2, Sa <= std <= PV (values)')
     run.rule('C12.cache', 'every mutator and getter maps every coherent entry state (no cache / x,y cached / x,y,r,t cached) to a coherent state on every path')
     run.rule('C12.stats', 'statistics reduce over the finite samples only and equal their definitions; Interferogram statistics delegate; piston removal subtracts that mean')
-    run.rule('C12.crop', 'bounding-box slices index the axis their statistics belong to and are applied as [rows, columns]')
+    run.rule('C12.crop', 'crop returns the bounding box of the valid samples with every existing coordinate cache cut to the same window, and is idempotent (decided on values); '
+             'bounding-box slices index the axis their statistics belong to and are applied as [rows, columns] (reading of the code)')
     run.group(cache_rules, run, db)
     run.group(stats_rules, run, db)
-    run.group(crop_rules, run, db)
+    # crop decided on values first (concrete 5x6 maps of symbolic samples, eight sets of invalid margins, three cache states): the result
+    # is the bounding box of the valid samples, the caches are cut to the same window, cropping again changes nothing.  The reading of
+    # the slice construction below defers to it when crop is organised in a way it does not read.
+    from .c12values import crop_value_rules
+    n_crop = run.group(crop_value_rules, run, db)
+
+    def crop_reading(run, db):
+        try:
+            crop_rules(run, db)
+        except AnalysisError as e:
+            if not n_crop:
+                raise
+            run.info('crop_rules does not read this organisation of crop (%s); crop was decided on values for %d maps' % (str(e)[:140], n_crop))
+    run.group(crop_reading, run, db)
     run.rule('C12.fit', 'tilt/power removal is a least-squares projection: data as right-hand side, removed term = own coefficients times fitted basis terms; methods subtract what was fitted')
-    run.group(fit_rules, run, db)
+    from .c12values import removal_value_rules
+    n_fit = run.group(removal_value_rules, run, db)
+
+    def fit_reading(run, db):
+        try:
+            fit_rules(run, db)
+        except AnalysisError as e:
+            if not n_fit:
+                raise
+            run.info('fit_rules does not read this organisation of the fits (%s); piston / tilt / power removal were decided on values (%d cases)' % (str(e)[:140], n_fit))
+    run.group(fit_reading, run, db)
     run.group(coord_pure_rules, run, db)
     run.require_instances('C12.cache', 36)
     run.require_instances('C12.stats', 12)
